@@ -1,5 +1,5 @@
 #!/usr/bin/env python3
-"""tools/mutsweep.py --out DIR [--jobs N] [--files a.rs,b.rs] [--max M] [--props C01,C04] [--seed S]
+"""tools/mutsweep.py --out DIR [--jobs N] [--files a.rs,b.rs] [--max M] [--props C01,C04] [--seed S] [--from OTHER/results.jsonl]
 
 Development tool (not a registered check): a syntactic mutation sweep used to
 find gaps in the generators / predicates.  For every single-token mutant of the
@@ -218,7 +218,10 @@ class Worker:
         t0 = time.time()
         try:
             open(path, "w", encoding="utf-8").write("\n".join(lines))
-            rc, out = sh("cargo test --offline --lib 2>&1 | tail -40", cwd=self.repo, env={"CARGO_TARGET_DIR": self.rtarget, "RUSTFLAGS": "-Awarnings"}, timeout=900)
+            if m.get("skip_unit"):
+                out = "test result: ok. 86 passed; 0 failed"
+            else:
+                rc, out = sh("cargo test --offline --lib 2>&1 | tail -40", cwd=self.repo, env={"CARGO_TARGET_DIR": self.rtarget, "RUSTFLAGS": "-Awarnings"}, timeout=900)
             if "test result: ok. 86 passed; 0 failed" in out:
                 res["unit"] = "survives"
             elif "test result:" in out:
@@ -306,6 +309,8 @@ def main():
     ap.add_argument("--seed", type=int, default=1)
     ap.add_argument("--report", action="store_true")
     ap.add_argument("--seeded", action="store_true", help="run every seeded/<name>/patch.diff instead of syntactic mutants")
+    ap.add_argument("--from", dest="from_", default="", help="re-run the survivors of another sweep's results.jsonl that were not reported "
+                    "with a failing input (their unit-test step is skipped)")
     a = ap.parse_args()
     out = os.path.abspath(a.out)
     assert not out.startswith("/repo") and not out.startswith("/verif")
@@ -329,6 +334,12 @@ def main():
         import glob
         muts = [{"name": os.path.basename(os.path.dirname(f)), "patch": f, "file": os.path.basename(os.path.dirname(f)), "line": 0,
                  "op": "seeded-patch", "new": f} for f in sorted(glob.glob(os.path.join(V, "seeded", "*", "patch.diff")))]
+    elif a.from_:
+        muts = []
+        for l in open(a.from_):
+            r = json.loads(l)
+            if r.get("unit") == "survives" and not r.get("failing_input"):
+                muts.append({"file": r["file"], "line": r["line"], "op": r["op"], "old": r["old"], "new": r["new"], "skip_unit": True})
     else:
         muts = enumerate_mutants("/repo", files)
     rnd = random.Random(a.seed)
